@@ -385,6 +385,9 @@ def build():
     if fixed:
         u.item('core', 'parser::const MAX_ACCUM_EXP')
     u.item('core', 'parser::struct AsciiDecLit')
+    # trust anchors: the two raw-memory primitives are external_body stubs; their unsafe bodies must be these texts
+    u.pin('core', IMPL + '::skip_n', sha='3dc410d2c797b00d')
+    u.pin('core', IMPL + '::read_u64_unchecked', sha='183fe8505d19344e')
     u.inherent('core', IMPL, lit_contracts(cap, fixed))
     u.fn('core', 'parser::str_to_dec', str_to_dec_contract(cap, fixed))
     u.impl('fpdec', 'from_str::impl FromStr for Decimal',
